@@ -1088,211 +1088,12 @@ api_harness!(c17_aligned_small_any_offset, 12, {
     kani::cover!(x == 11);
 });
 
-/// A concrete 20-byte unknown extra record (id 0xcafe) closing the last central header: the 20
-/// bytes in front of the end record are then concrete, so the reader's probe for a ZIP64 locator
-/// there is decided during symbolic execution (otherwise CBMC explores the ZIP64 search with
-/// symbolic seek positions: > 8 GB). ZIP64 locator/end-record handling is covered by c08_*.
-const TAILX: [u8; 20] = [0xfe, 0xca, 16, 0, 1, 2, 3, 4, 5, 6, 7, 8, 9, 10, 11, 12, 13, 14, 15, 16];
-
-/// C13 append: a one-entry archive from the independent builder (all metadata symbolic: method
-/// any number, times, CRC, sizes as declared, attributes, made-by; 1-byte ASCII name, 2-byte
-/// payload, 1-byte archive comment) is opened with new_append, one new stored entry is added
-/// and the archive finished: the old local header and data bytes are untouched, the new entry
-/// follows them, the central directory lists the old entry first with the same name, method,
-/// time, CRC, sizes, attributes (same Unix mode) and offset, then the new one; counts, sizes
-/// and offsets of the end record are exact and the archive comment is kept.
-// @h prop=C13,C02 tier=dev t=1800 mem=10 uws="fn:^std::ptr::drop_glue::<std::io::Error>$:2"
-api_harness!(c13_append_one_entry, 36, {
-    const N: usize = 224;
-    let mut b = [0u8; N];
-    let mut v = EntryVals::any();
-    v.flags &= 1 << 3; // unencrypted; local sizes may be zero under bit 3
-    let name: [u8; 1] = kani::any();
-    kani::assume(name[0] < 0x80);
-    let payload: [u8; 2] = kani::any();
-    let cm: [u8; 1] = kani::any();
-    v.csize = 2;
-    v.offset = 0;
-    let dd = v.flags & (1 << 3) != 0;
-    let p = put_local(&mut b, 0, &v, if dd { 0 } else { v.crc }, if dd { 0 } else { 2 }, if dd { 0 } else { v.usize_ }, &name, &[]);
-    b[p] = payload[0];
-    b[p + 1] = payload[1];
-    let cd0 = p + 2;
-    let e0 = put_central(&mut b, cd0, &v, &name, &TAILX, &[]);
-    let end0 = put_eocd(&mut b, e0, 0, 0, 1, 1, (e0 - cd0) as u32, cd0 as u32, &cm);
-    let orig = b;
-    let mut sink = Sink::<N>::from_array(b, end0);
-    let mut w = match ZipWriter::new_append(sink.handle()) {
-        Ok(w) => w,
-        Err(e) => {
-            core::mem::forget(e);
-            assert!(false, "well-formed archive refused by new_append");
-            return;
-        }
-    };
-    let (o1, date1, time1, perm1) = sym_opts();
-    let d0: u8 = kani::any();
-    ok!(w.start_file("n", o1), "start_file failed");
-    ok!(w.write_all(&[d0]), "write failed");
-    ok!(w.finish(), "finish failed");
-    core::mem::forget(w);
-    assert!(!sink.overflow);
-    let nb = &sink.buf;
-    // old entry bytes untouched
-    let mut i = 0;
-    while i < cd0 {
-        assert_eq!(nb[i], orig[i]);
-        i += 1;
-    }
-    // new local entry directly after the old data
-    assert_eq!(le32(nb, cd0), SIG_LOCAL);
-    assert_eq!(le16(nb, cd0 + 8), 0);
-    assert_eq!(le16(nb, cd0 + 10), time1);
-    assert_eq!(le16(nb, cd0 + 12), date1);
-    assert_eq!(le32(nb, cd0 + 14), ref_crc32(&[d0], 1));
-    assert_eq!(le32(nb, cd0 + 18), 1);
-    assert_eq!(le32(nb, cd0 + 22), 1);
-    assert_eq!(le16(nb, cd0 + 26), 1);
-    assert_eq!(le16(nb, cd0 + 28), 0);
-    assert_eq!(nb[cd0 + 30], b'n');
-    assert_eq!(nb[cd0 + 31], d0);
-    // central directory: old entry, then new entry
-    let c0 = cd0 + 32;
-    assert_eq!(le32(nb, c0), SIG_CENTRAL);
-    assert_eq!(le16(nb, c0 + 8) & 1, 0);
-    assert_eq!(le16(nb, c0 + 10), v.method);
-    assert_eq!(le16(nb, c0 + 12), v.time);
-    assert_eq!(le16(nb, c0 + 14), v.date);
-    assert_eq!(le32(nb, c0 + 16), v.crc);
-    assert_eq!(le32(nb, c0 + 20), 2);
-    let u32s = (le32(nb, c0 + 24), le32(nb, c0 + 20), le32(nb, c0 + 42));
-    let elen0 = le16(nb, c0 + 30) as usize;
-    assert_eq!(le16(nb, c0 + 28), 1);
-    assert_eq!(nb[c0 + 46], name[0]);
-    match strict_zip64_decode(nb, c0 + 47, elen0, u32s) {
-        Some((usz, csz, off, z)) => {
-            assert_eq!(usz, v.usize_ as u64);
-            assert_eq!(csz, 2);
-            assert_eq!(off, 0);
-            // the old entry's own extra data follows the (possibly added) ZIP64 record verbatim
-            assert_eq!(z + 20, elen0);
-            let mut i = 0;
-            while i < 20 {
-                assert_eq!(nb[c0 + 47 + z + i], TAILX[i]);
-                i += 1;
-            }
-        }
-        None => assert!(false, "re-emitted central record inconsistent"),
-    }
-    // same Unix mode as before
-    {
-        let made_by = le16(nb, c0 + 4);
-        let eattr = le32(nb, c0 + 38);
-        assert_eq!(eattr, v.eattr);
-        let before = match v.made_by >> 8 {
-            3 => Some(3u16),
-            0 => Some(0u16),
-            _ => None,
-        };
-        let after = match made_by >> 8 {
-            3 => Some(3u16),
-            0 => Some(0u16),
-            _ => None,
-        };
-        assert_eq!(before, after);
-    }
-    let c1 = c0 + 47 + elen0;
-    assert_eq!(le32(nb, c1), SIG_CENTRAL);
-    assert_eq!(le16(nb, c1 + 10), 0);
-    assert_eq!(le16(nb, c1 + 12), time1);
-    assert_eq!(le32(nb, c1 + 16), ref_crc32(&[d0], 1));
-    assert_eq!(le32(nb, c1 + 20), 1);
-    assert_eq!(le32(nb, c1 + 24), 1);
-    assert_eq!(le16(nb, c1 + 28), 1);
-    assert_eq!(le16(nb, c1 + 30), 0);
-    assert_eq!(le32(nb, c1 + 38) >> 16, 0o100000 | perm1);
-    assert_eq!(le32(nb, c1 + 42) as usize, cd0);
-    assert_eq!(nb[c1 + 46], b'n');
-    let eo = c1 + 47;
-    assert_eq!(le32(nb, eo), SIG_EOCD);
-    assert_eq!(le16(nb, eo + 8), 2);
-    assert_eq!(le16(nb, eo + 10), 2);
-    assert_eq!(le32(nb, eo + 12) as usize, eo - c0);
-    assert_eq!(le32(nb, eo + 16) as usize, c0);
-    assert_eq!(le16(nb, eo + 20), 1);
-    assert_eq!(nb[eo + 22], cm[0]);
-    assert_eq!(sink.end, eo + 23);
-    kani::cover!(elen0 == 32);
-    kani::cover!(elen0 == 20 && dd);
-});
-
-/// C13 appending nothing leaves an equivalent archive: new_append followed directly by finish
-/// rewrites the central directory with the same entry values at the same place and keeps the
-/// comment; the old local header and data are untouched.
-// @h prop=C13 tier=dev t=1500 mem=8 uws="fn:^std::ptr::drop_glue::<std::io::Error>$:2"
-api_harness!(c13_append_nothing, 36, {
-    const N: usize = 160;
-    let mut b = [0u8; N];
-    let mut v = EntryVals::any();
-    v.flags = 0;
-    kani::assume(v.usize_ != 0xFFFF_FFFF);
-    let name: [u8; 1] = kani::any();
-    kani::assume(name[0] < 0x80);
-    let payload: [u8; 2] = kani::any();
-    let cm: [u8; 2] = kani::any();
-    v.csize = 2;
-    v.offset = 0;
-    let p = put_local(&mut b, 0, &v, v.crc, 2, v.usize_, &name, &[]);
-    b[p] = payload[0];
-    b[p + 1] = payload[1];
-    let cd0 = p + 2;
-    let e0 = put_central(&mut b, cd0, &v, &name, &TAILX, &[]);
-    let end0 = put_eocd(&mut b, e0, 0, 0, 1, 1, (e0 - cd0) as u32, cd0 as u32, &cm);
-    let orig = b;
-    let mut sink = Sink::<N>::from_array(b, end0);
-    let mut w = match ZipWriter::new_append(sink.handle()) {
-        Ok(w) => w,
-        Err(e) => {
-            core::mem::forget(e);
-            assert!(false, "well-formed archive refused by new_append");
-            return;
-        }
-    };
-    ok!(w.finish(), "finish failed");
-    core::mem::forget(w);
-    let nb = &sink.buf;
-    assert_eq!(sink.end, end0);
-    let mut i = 0;
-    while i < cd0 {
-        assert_eq!(nb[i], orig[i]);
-        i += 1;
-    }
-    assert_eq!(le32(nb, cd0), SIG_CENTRAL);
-    assert_eq!(le16(nb, cd0 + 10), v.method);
-    assert_eq!(le16(nb, cd0 + 12), v.time);
-    assert_eq!(le16(nb, cd0 + 14), v.date);
-    assert_eq!(le32(nb, cd0 + 16), v.crc);
-    assert_eq!(le32(nb, cd0 + 20), 2);
-    assert_eq!(le32(nb, cd0 + 24), v.usize_);
-    assert_eq!(le16(nb, cd0 + 28), 1);
-    assert_eq!(le16(nb, cd0 + 30), 20);
-    let mut i = 0;
-    while i < 20 {
-        assert_eq!(nb[cd0 + 47 + i], TAILX[i]);
-        i += 1;
-    }
-    assert_eq!(le32(nb, cd0 + 38), v.eattr);
-    assert_eq!(le32(nb, cd0 + 42), 0);
-    assert_eq!(nb[cd0 + 46], name[0]);
-    assert_eq!(le32(nb, e0), SIG_EOCD);
-    assert_eq!(le16(nb, e0 + 8), 1);
-    assert_eq!(le32(nb, e0 + 12) as usize, e0 - cd0);
-    assert_eq!(le32(nb, e0 + 16) as usize, cd0);
-    assert_eq!(le16(nb, e0 + 20), 2);
-    assert_eq!(nb[e0 + 22], cm[0]);
-    assert_eq!(nb[e0 + 23], cm[1]);
-    kani::cover!(true);
-});
+/// A concrete 4-byte unknown extra record (id 0xcafe, empty body) closing the last central
+/// header, with disk-number-start 0: the 4 bytes at (end record - 20), where the reader probes
+/// for a ZIP64 locator signature, are then concrete, so the probe is decided during symbolic
+/// execution (otherwise CBMC explores the ZIP64 search with symbolic seek positions: > 8 GB).
+/// ZIP64 locator / end-record handling is covered by c08_*.
+const TAILX: [u8; 4] = [0xfe, 0xca, 0, 0];
 
 /// C14/C12 raw copy between two normally written entries: the source entry (independent
 /// builder; method ANY 16-bit number incl. undecodable ones, declared CRC and uncompressed size
@@ -1437,4 +1238,359 @@ api_harness!(c11_writer_fault_any_point, 10, {
     }
     kani::cover!(any_err && sink.env.faulted);
     kani::cover!(!any_err);
+});
+
+// =============================================================================================
+// C13 append, compositional: (a) what new_append re-hydrates from an existing archive,
+// (b) what the writer does from exactly such a state. A Result that merges Ok and Err paths
+// makes every length read back from it non-constant for CBMC's symbolic execution (every later
+// loop is then unrolled to the bound), so running parse + write in one query does not finish
+// within the caps; (a) asserts everything (b) assumes.
+// =============================================================================================
+macro_rules! c13_open_state {
+    ($name:ident, $j:expr) => {
+        #[kani::proof]
+        #[kani::unwind(10)]
+        #[kani::stub(time::OffsetDateTime::now_utc, crate::verif_kit::stub_now_utc)]
+        #[kani::stub(crc32fast::Hasher::internal_new_specialized, crate::verif_kit::stub_crc_specialized)]
+        #[kani::stub(alloc::fmt::format, crate::verif_kit::stub_format)]
+        fn $name() {
+            const J: usize = $j;
+            const N: usize = 160;
+            let mut b = [0u8; N];
+            let junk: [u8; J] = kani::any();
+            let mut i = 0;
+            while i < J {
+                b[i] = junk[i];
+                i += 1;
+            }
+            let mut v = EntryVals::any();
+            v.flags &= (1 << 3) | (1 << 11);
+            kani::assume(v.usize_ != 0xFFFF_FFFF);
+            kani::assume(v.method != 99); // method 99 without an AES extra field is not a well-formed entry
+            let name: [u8; 1] = [b'o'];
+            let payload: [u8; 2] = kani::any();
+            let cm: [u8; 2] = kani::any();
+            v.csize = 2;
+            v.offset = 0;
+            v.disk = 0;
+            let dd = v.flags & (1 << 3) != 0;
+            let p = put_local(&mut b, J, &v, if dd { 0 } else { v.crc }, if dd { 0 } else { 2 }, if dd { 0 } else { v.usize_ }, &name, &[]);
+            b[p] = payload[0];
+            b[p + 1] = payload[1];
+            let cd0 = p + 2;
+            let e0 = put_central(&mut b, cd0, &v, &name, &TAILX, &[]);
+            let end0 = put_eocd(&mut b, e0, 0, 0, 1, 1, (e0 - cd0) as u32, (cd0 - J) as u32, &cm);
+            let mut sink = Sink::<N>::from_array(b, end0);
+            let w = match ZipWriter::new_append(sink.handle()) {
+                Ok(w) => w,
+                Err(e) => {
+                    core::mem::forget(e);
+                    assert!(false, "well-formed archive refused by new_append");
+                    return;
+                }
+            };
+            // writer state
+            assert!(!w.writing_to_file && !w.writing_to_extra_field && !w.writing_to_central_extra_field_only);
+            assert!(w.writing_raw, "the last old entry's header must not be re-patched");
+            assert!(matches!(w.inner, GenericZipWriter::Storer(MaybeEncrypted::Unencrypted(_))));
+            // positioned on the old central directory, which will be overwritten
+            assert_eq!(sink.off, cd0);
+            assert_eq!(w.comment.len(), 2);
+            assert!(w.comment[0] == cm[0] && w.comment[1] == cm[1]);
+            // the re-hydrated entry
+            assert_eq!(w.files.len(), 1);
+            let f = &w.files[0];
+            assert_eq!(f.file_name.len(), 1);
+            assert_eq!(f.file_name.as_bytes()[0], b'o');
+            #[allow(deprecated)]
+            let m = f.compression_method.to_u16();
+            assert_eq!(m, v.method);
+            assert_eq!(f.last_modified_time.datepart(), v.date);
+            assert_eq!(f.last_modified_time.timepart(), v.time);
+            assert_eq!(f.crc32, v.crc);
+            assert_eq!(f.compressed_size, 2);
+            assert_eq!(f.uncompressed_size, v.usize_ as u64);
+            assert_eq!(f.header_start, J as u64, "absolute offset of the old local header (prepended data included)");
+            assert_eq!(f.external_attributes, v.eattr);
+            assert_eq!(f.version_made_by, v.made_by as u8);
+            assert!(match f.system {
+                System::Dos => v.made_by >> 8 == 0,
+                System::Unix => v.made_by >> 8 == 3,
+                System::Unknown => v.made_by >> 8 != 0 && v.made_by >> 8 != 3,
+            });
+            assert!(!f.encrypted);
+            assert!(!f.large_file);
+            assert!(f.aes_mode.is_none());
+            assert_eq!(f.extra_field.len(), 4);
+            let mut i = 0;
+            while i < 4 {
+                assert_eq!(f.extra_field[i], TAILX[i]);
+                i += 1;
+            }
+            kani::cover!(dd);
+            kani::cover!(v.made_by >> 8 == 3 && v.method == 8);
+            core::mem::forget(w);
+        }
+    };
+}
+/// C13(a) new_append on a one-entry archive from the independent builder (all entry metadata
+/// symbolic: any method number but 99, times, CRC, declared size, attributes, made-by, data
+/// descriptor flag; concrete 1-byte name; 2-byte archive comment): the writer comes back
+/// positioned ON the old central directory, in the idle state with the raw flag set, holding one
+/// entry whose every field equals the builder's central record (absolute header offset) and the
+/// old archive comment.
+// @h prop=C13 tier=quick t=900 mem=8 name=c13_open_state_j0 uws="fn:^std::ptr::drop_glue::<std::io::Error>$:2"
+c13_open_state!(c13_open_state_j0, 0);
+/// C13(a) as above for an archive with 2 bytes of prepended data: the re-hydrated header offset
+/// is absolute (2) and the writer is positioned at 2 + the directory offset.
+// @h prop=C13 tier=quick t=900 mem=8 name=c13_open_state_j2 uws="fn:^std::ptr::drop_glue::<std::io::Error>$:2"
+c13_open_state!(c13_open_state_j2, 2);
+
+/// writer state as new_append leaves it (shown by c13_open_state_*): idle, raw flag set, one old
+/// entry with symbolic fields, positioned at `cd0` of an arbitrary existing file image
+fn appended_state<const N: usize>(sink: &mut Sink<N>, old: ZipFileData, cm: &[u8; 2]) -> ZipWriter<SinkH<N>> {
+    ZipWriter {
+        inner: GenericZipWriter::Storer(MaybeEncrypted::Unencrypted(sink.handle())),
+        files: vec![old],
+        stats: Default::default(),
+        writing_to_file: false,
+        writing_to_extra_field: false,
+        writing_to_central_extra_field_only: false,
+        writing_raw: true,
+        comment: cm.to_vec(),
+    }
+}
+fn old_entry() -> ZipFileData {
+    let mut f = any_zfd(String::from("o"), TAILX.to_vec());
+    f.encrypted = false;
+    f.large_file = false;
+    f
+}
+/// judge the re-emitted central record of the old entry at `c0`; returns its extra length
+fn judge_old_central(nb: &[u8], c0: usize, old: &ZipFileData) -> usize {
+    assert_eq!(le32(nb, c0), SIG_CENTRAL);
+    assert_eq!(le16(nb, c0 + 4), ((old.system as u16) << 8) | old.version_made_by as u16);
+    assert_eq!(le16(nb, c0 + 8) & 1, 0);
+    #[allow(deprecated)]
+    let m = old.compression_method.to_u16();
+    assert_eq!(le16(nb, c0 + 10), m);
+    assert_eq!(le16(nb, c0 + 12), old.last_modified_time.timepart());
+    assert_eq!(le16(nb, c0 + 14), old.last_modified_time.datepart());
+    assert_eq!(le32(nb, c0 + 16), old.crc32);
+    assert_eq!(le16(nb, c0 + 28), 1);
+    assert_eq!(nb[c0 + 46], b'o');
+    assert_eq!(le32(nb, c0 + 38), old.external_attributes);
+    let u32s = (le32(nb, c0 + 24), le32(nb, c0 + 20), le32(nb, c0 + 42));
+    let elen0 = le16(nb, c0 + 30) as usize;
+    match strict_zip64_decode(nb, c0 + 47, elen0, u32s) {
+        Some((usz, csz, off, z)) => {
+            assert_eq!(usz, old.uncompressed_size);
+            assert_eq!(csz, old.compressed_size);
+            assert_eq!(off, old.header_start);
+            assert_eq!(z + 4, elen0);
+            let mut i = 0;
+            while i < 4 {
+                assert_eq!(nb[c0 + 47 + z + i], TAILX[i]);
+                i += 1;
+            }
+        }
+        None => assert!(false, "re-emitted central record inconsistent"),
+    }
+    elen0
+}
+
+/// C13(b) from the state new_append leaves (c13_open_state_*): one old entry with EVERY scalar
+/// field symbolic (any method number, 64-bit sizes and header offset - so old entries that need
+/// ZIP64 are included -, times, CRC, attributes, host system), writer positioned at the start of
+/// the old central directory of an ARBITRARY existing file image; one new stored entry is added
+/// and the archive finished: every byte in front of the old directory is untouched, the new
+/// entry follows, the central directory lists the old entry first with all its values (strict
+/// ZIP64 decoding), then the new one; counts, sizes, offsets exact; archive comment kept.
+// @h prop=C13,C02 tier=quick t=1200 mem=8 uws="verif_h\d+c13_append_\w+\.\d+$:40;4Sink.*9write_all.*\.1$:30"
+api_harness!(c13_append_one_from_state, 10, {
+    const N: usize = 224;
+    const CD0: usize = 33;
+    let orig: [u8; N] = kani::any();
+    let cm: [u8; 2] = kani::any();
+    let mut sink = Sink::<N>::from_array(orig, CD0 + 51 + 24);
+    sink.off = CD0;
+    let old = old_entry();
+    let oldc = any_zfd(String::new(), Vec::new()); // placeholder to keep field copies below simple
+    core::mem::forget(oldc);
+    let (o_usz, o_csz, o_off, o_crc, o_attr) = (old.uncompressed_size, old.compressed_size, old.header_start, old.crc32, old.external_attributes);
+    let o_time = old.last_modified_time;
+    #[allow(deprecated)]
+    let o_m = old.compression_method.to_u16();
+    let o_made = ((old.system as u16) << 8) | old.version_made_by as u16;
+    let mut w = appended_state(&mut sink, old, &cm);
+    let (o1, date1, time1, perm1) = sym_opts();
+    let d0: u8 = kani::any();
+    ok!(w.start_file("n", o1), "start_file failed");
+    ok!(w.write_all(&[d0]), "write failed");
+    ok!(w.finish(), "finish failed");
+    assert!(!sink.overflow);
+    let nb = &sink.buf;
+    // everything in front of the old central directory is untouched
+    let mut i = 0;
+    while i < CD0 {
+        assert_eq!(nb[i], orig[i]);
+        i += 1;
+    }
+    // new local entry directly after the old data
+    assert_eq!(le32(nb, CD0), SIG_LOCAL);
+    assert_eq!(le16(nb, CD0 + 8), 0);
+    assert_eq!(le16(nb, CD0 + 10), time1);
+    assert_eq!(le16(nb, CD0 + 12), date1);
+    assert_eq!(le32(nb, CD0 + 14), ref_crc32(&[d0], 1));
+    assert_eq!(le32(nb, CD0 + 18), 1);
+    assert_eq!(le32(nb, CD0 + 22), 1);
+    assert_eq!(le16(nb, CD0 + 26), 1);
+    assert_eq!(le16(nb, CD0 + 28), 0);
+    assert_eq!(nb[CD0 + 30], b'n');
+    assert_eq!(nb[CD0 + 31], d0);
+    // central directory: old entry, then new entry
+    let c0 = CD0 + 32;
+    let old_view = &w.files[0];
+    assert!(old_view.uncompressed_size == o_usz && old_view.compressed_size == o_csz && old_view.header_start == o_off);
+    assert!(old_view.crc32 == o_crc && old_view.external_attributes == o_attr);
+    assert!(old_view.last_modified_time.timepart() == o_time.timepart() && old_view.last_modified_time.datepart() == o_time.datepart());
+    #[allow(deprecated)]
+    let m_now = old_view.compression_method.to_u16();
+    assert_eq!(m_now, o_m);
+    assert_eq!(le16(nb, c0 + 4), o_made);
+    let elen0 = judge_old_central(nb, c0, old_view);
+    let c1 = c0 + 47 + elen0;
+    assert_eq!(le32(nb, c1), SIG_CENTRAL);
+    assert_eq!(le16(nb, c1 + 10), 0);
+    assert_eq!(le16(nb, c1 + 12), time1);
+    assert_eq!(le16(nb, c1 + 14), date1);
+    assert_eq!(le32(nb, c1 + 16), ref_crc32(&[d0], 1));
+    assert_eq!(le32(nb, c1 + 20), 1);
+    assert_eq!(le32(nb, c1 + 24), 1);
+    assert_eq!(le16(nb, c1 + 28), 1);
+    assert_eq!(le16(nb, c1 + 30), 0);
+    assert_eq!(le32(nb, c1 + 38) >> 16, 0o100000 | perm1);
+    assert_eq!(le32(nb, c1 + 42) as usize, CD0);
+    assert_eq!(nb[c1 + 46], b'n');
+    let eo = c1 + 47;
+    assert_eq!(le32(nb, eo), SIG_EOCD);
+    assert_eq!(le16(nb, eo + 8), 2);
+    assert_eq!(le16(nb, eo + 10), 2);
+    assert_eq!(le32(nb, eo + 12) as usize, eo - c0);
+    assert_eq!(le32(nb, eo + 16) as usize, c0);
+    assert_eq!(le16(nb, eo + 20), 2);
+    assert_eq!(nb[eo + 22], cm[0]);
+    assert_eq!(nb[eo + 23], cm[1]);
+    assert_eq!(sink.end, eo + 24);
+    kani::cover!(elen0 == 4 + 28);
+    kani::cover!(elen0 == 4);
+    core::mem::forget(w);
+});
+
+/// C13(b) appending nothing: from the same state, finish() alone rewrites the central directory
+/// at the same place with the old entry's values and the old comment; nothing in front of it is
+/// touched; an old entry that needs no ZIP64 record yields a byte-identical directory size.
+// @h prop=C13 tier=quick t=1200 mem=8 uws="verif_h\d+c13_append_\w+\.\d+$:40;4Sink.*9write_all.*\.1$:30"
+api_harness!(c13_append_nothing_from_state, 10, {
+    const N: usize = 160;
+    const CD0: usize = 33;
+    let orig: [u8; N] = kani::any();
+    let cm: [u8; 2] = kani::any();
+    let mut sink = Sink::<N>::from_array(orig, CD0 + 51 + 24);
+    sink.off = CD0;
+    let old = old_entry();
+    let mut w = appended_state(&mut sink, old, &cm);
+    ok!(w.finish(), "finish failed");
+    let nb = &sink.buf;
+    let mut i = 0;
+    while i < CD0 {
+        assert_eq!(nb[i], orig[i]);
+        i += 1;
+    }
+    let elen0 = judge_old_central(nb, CD0, &w.files[0]);
+    let eo = CD0 + 47 + elen0;
+    assert_eq!(le32(nb, eo), SIG_EOCD);
+    assert_eq!(le16(nb, eo + 8), 1);
+    assert_eq!(le16(nb, eo + 10), 1);
+    assert_eq!(le32(nb, eo + 12) as usize, eo - CD0);
+    assert_eq!(le32(nb, eo + 16) as usize, CD0);
+    assert_eq!(le16(nb, eo + 20), 2);
+    assert_eq!(nb[eo + 22], cm[0]);
+    assert_eq!(nb[eo + 23], cm[1]);
+    if elen0 == 4 {
+        // same size as the directory it replaces: the file ends where it ended
+        assert_eq!(sink.end, CD0 + 51 + 24);
+    }
+    kani::cover!(elen0 == 4);
+    kani::cover!(elen0 > 4);
+    core::mem::forget(w);
+});
+
+/// C13(a) new_append on an EMPTY archive (end record + 1-byte comment from the independent
+/// builder): the writer comes back idle, raw flag set, without entries, with the old comment,
+/// positioned at the old end record.
+// @h prop=C13,C12 tier=quick t=900 mem=8 uws="fn:^std::ptr::drop_glue::<std::io::Error>$:2"
+api_harness!(c13_open_state_empty, 10, {
+    const N: usize = 64;
+    let mut b = [0u8; N];
+    let cm: [u8; 1] = kani::any();
+    let end0 = put_eocd(&mut b, 0, 0, 0, 0, 0, 0, 0, &cm);
+    let mut sink = Sink::<N>::from_array(b, end0);
+    let w = match ZipWriter::new_append(sink.handle()) {
+        Ok(w) => w,
+        Err(e) => {
+            core::mem::forget(e);
+            assert!(false, "empty archive refused by new_append");
+            return;
+        }
+    };
+    assert!(!w.writing_to_file && !w.writing_to_extra_field && !w.writing_to_central_extra_field_only && w.writing_raw);
+    assert!(matches!(w.inner, GenericZipWriter::Storer(MaybeEncrypted::Unencrypted(_))));
+    assert_eq!(w.files.len(), 0);
+    assert_eq!(w.comment.len(), 1);
+    assert_eq!(w.comment[0], cm[0]);
+    assert_eq!(sink.off, 0);
+    kani::cover!(true);
+    core::mem::forget(w);
+});
+
+/// C13(b) from the state c13_open_state_empty establishes (idle, raw flag set, no entries, old
+/// comment, positioned at 0 over the old end record): adding one stored entry and finishing
+/// yields exactly the one-entry archive of the reference layout with the comment kept; finishing
+/// at once re-emits the empty archive.
+// @h prop=C13,C12 tier=quick t=900 mem=8
+api_harness!(c13_append_to_empty_from_state, 10, {
+    const N: usize = 128;
+    let mut b = [0u8; N];
+    let cm: [u8; 1] = kani::any();
+    let end0 = put_eocd(&mut b, 0, 0, 0, 0, 0, 0, 0, &cm);
+    let mut sink = Sink::<N>::from_array(b, end0);
+    let mut w = ZipWriter {
+        inner: GenericZipWriter::Storer(MaybeEncrypted::Unencrypted(sink.handle())),
+        files: Vec::new(),
+        stats: Default::default(),
+        writing_to_file: false,
+        writing_to_extra_field: false,
+        writing_to_central_extra_field_only: false,
+        writing_raw: true,
+        comment: cm.to_vec(),
+    };
+    let add: bool = kani::any();
+    if add {
+        let (o1, date1, time1, perm1) = sym_opts();
+        let d0: u8 = kani::any();
+        ok!(w.start_file("n", o1), "start_file failed");
+        ok!(w.write_all(&[d0]), "write failed");
+        ok!(w.finish(), "finish failed");
+        let exp = [Exp { name: b"n", content: &[d0], local_extra: &[], central_extra: &[], large: false, date: date1, time: time1, mode: 0o100000 | perm1, encrypted: false, raw: None }];
+        judge_archive(&sink.buf, 0, sink.end, &exp, &cm);
+    } else {
+        ok!(w.finish(), "finish failed");
+        judge_archive(&sink.buf, 0, sink.end, &[], &cm);
+        assert_eq!(sink.end, end0);
+    }
+    kani::cover!(add);
+    kani::cover!(!add);
+    core::mem::forget(w);
 });
